@@ -66,6 +66,7 @@ class _TorusDynamicsService(_DynamicsServiceBase):
 
         self._latest_grid: np.ndarray | None = None
         self._latest_params: dict | None = None
+        self._orbit_state_key: np.ndarray | None = None
 
     @property
     def orbit(self) -> PeriodicOrbit:
@@ -151,6 +152,7 @@ class _TorusDynamicsService(_DynamicsServiceBase):
         ValueError
             If no grid has been computed yet.
         """
+        self._sync_with_orbit()
         if self._latest_grid is None:
             raise ValueError("No grid has been computed yet. Call compute_grid() first.")
         return self._latest_grid
@@ -158,12 +160,32 @@ class _TorusDynamicsService(_DynamicsServiceBase):
     @property
     def params(self) -> dict:
         """The parameters of the latest computed grid."""
+        self._sync_with_orbit()
         if self._latest_params is None:
             raise ValueError("No parameters have been computed yet. Call compute_grid() first.")
         return self._latest_params
 
+    def _sync_with_orbit(self) -> None:
+        """Drop everything derived from an earlier state of the underlying orbit.
+
+        The memo keys identify the orbit by ``id()`` (or not at all), but the orbit is
+        mutable (period setter, differential correction).
+        """
+        period = self.orbit.period
+        state_key = np.append(
+            np.asarray(self.orbit.initial_state, dtype=float),
+            np.nan if period is None else float(period),
+        )
+        previous = getattr(self, "_orbit_state_key", None)
+        if previous is None or not np.array_equal(np.asarray(previous, dtype=float), state_key, equal_nan=True):
+            self.reset()
+            self._latest_grid = None
+            self._latest_params = None
+            self._orbit_state_key = state_key
+
     def eigen_data(self) -> Tuple[np.ndarray, np.ndarray, np.ndarray]:
         """The monodromy matrix, eigenvalues, and eigenvectors of the generating periodic orbit."""
+        self._sync_with_orbit()
         key = self.make_key(id(self.orbit))
         
         def _factory() -> Tuple[np.ndarray, np.ndarray, np.ndarray]:
@@ -202,6 +224,7 @@ class _TorusDynamicsService(_DynamicsServiceBase):
         eigenvectors : np.ndarray
             Eigenvectors of the monodromy matrix.
         """
+        self._sync_with_orbit()
         cache_key = self.make_key(id(self.orbit), n_theta1, method, order)
 
         def _factory() -> Tuple[np.ndarray, np.ndarray, np.ndarray, np.ndarray, np.ndarray, np.ndarray, np.ndarray]:
@@ -324,6 +347,7 @@ class _TorusDynamicsService(_DynamicsServiceBase):
         np.ndarray
             The invariant torus grid.
         """
+        self._sync_with_orbit()
         cache_key = self.make_key(epsilon, n_theta1, n_theta2, method, order)
         
         def _factory() -> np.ndarray:
